@@ -154,6 +154,16 @@ func checkMain(args []string) int {
 	covTotal, covDead := map[string]int{}, map[string]int{}
 	var deadNotes []string
 	var outOfSubset []string
+	// A failed obligation is assumed after it has been checked (Boogie style), so everything after it in the same function may be
+	// vacuous: a refuted vacuity probe in such a function is a consequence of the failure, not a contradictory contract.
+	funcFailed := map[string]bool{}
+	for _, u := range units {
+		for _, ob := range u.fc.obls {
+			if !ob.Cover && (ob.Result == nil || ob.Result.Verdict != "unsat") {
+				funcFailed[ob.Func] = true
+			}
+		}
+	}
 	for _, u := range units {
 		for a := range u.fc.assumes {
 			assumptions[a] = true
@@ -165,6 +175,7 @@ func checkMain(args []string) int {
 			assumptions["warning: "+w] = true
 		}
 		for _, ob := range u.fc.obls {
+			replayFc[ob] = u.fc // replay_run.go needs the verification context of a failed obligation
 			tagged := false
 			for _, p := range ob.Props {
 				if p == prop {
@@ -188,7 +199,7 @@ func checkMain(args []string) int {
 				// vacuity probes are not proof obligations. A refuted entry probe (contradictory precondition) or a function
 				// none of whose returns is reachable breaks the check; a single unreachable return is just dead code.
 				covTotal[ob.Func]++
-				if r.Verdict != want {
+				if r.Verdict != want && !funcFailed[ob.Func] {
 					covDead[ob.Func]++
 					deadNotes = append(deadNotes, ob.Name)
 					if strings.HasSuffix(ob.Name, "#cover:entry") || strings.HasSuffix(ob.Name, "#cover") {
@@ -335,7 +346,7 @@ func writeReplay(path, prop string, ob *Obligation, eng *Engine, repo, verif str
 		"solver_output": truncate(r.Raw, 20000),
 	}
 	reproduced := false
-	if r.Verdict == "sat" && r.Model != "" {
+	if (r.Verdict == "sat" && r.Model != "") || replayCandidate(ob) {
 		rec["model"] = truncate(r.Model, 20000)
 		ok, detail := tryReplay(eng, ob, r.Model, repo, verif)
 		rec["replay"] = detail
@@ -370,9 +381,9 @@ func replayMain(prop, path, repo, verif string) int {
 	if t, ok := rec["replay"].(map[string]any); ok {
 		if src, ok := t["test_source"].(string); ok {
 			pkg, _ := t["package"].(string)
-			okRun, out := runOverlayTest(repo, pkg, src, "TestGovcReplay")
+			failedRun, out := runReplayTest(repo, pkg, src)
 			fmt.Println(out)
-			if okRun {
+			if !failedRun {
 				fmt.Println("replay: the real code no longer fails on this input")
 				return 0
 			}
